@@ -111,7 +111,14 @@ def strip_reserved(obs):
 
 def obs_of(kind, obj, w):
     o = O.observe(kind, obj, w.U, w.probe_keys)
-    o.pop("layers", None)  # "layers seen" may legitimately shrink to "layers in use" (C04's reading); not a C06 observable
+    layers = o.pop("layers", None)  # "layers seen" may legitimately shrink to "layers in use" (C04's reading) ...
+    if kind == "M":
+        # ... but every layer that holds a record must be listed as existing, before and after a round trip
+        try:
+            used = {tag(e[1]) for e in obj.get_edges()}
+            o["layers_in_use_not_listed"] = sorted(used - set(layers)) if isinstance(layers, list) else repr(layers)
+        except Exception as e:  # noqa
+            o["layers_in_use_not_listed"] = "!" + type(e).__name__
     o["__type"] = type(obj).__name__
     return o
 
